@@ -12,6 +12,16 @@
 // `grow : Nat → Nat → Nat` (old capacity → needed length → new capacity) is
 // present iff the function appends, `fuel : Nat` iff it loops, `Res` iff it
 // contains an operation that may panic or a loop.
+//
+// Evaluation order (flush): a call with effects is hoisted in front of its statement; the
+// statement must not read the modified variable outside of that call.  Exception for the builtin
+// copy, which writes elements only: reads of a slice HEADER next to it — the operand P of
+// P[lo:hi], len(P), cap(P), a plain assignment target, P a variable or field path — are the same
+// before and after the call and are accepted (`b.Data = b.Data[:copy(b.Data, b.Data[d:])]`).
+//
+// State order (assignedOuter2): the variables a loop or an `if` assigns are listed in the order of
+// their first assignment, or — for the topics of declOrderTopics (code_part4.go) — of their
+// declaration.
 package main
 
 import (
@@ -19,6 +29,7 @@ import (
 	"go/ast"
 	"go/token"
 	"regexp"
+	"sort"
 	"strings"
 )
 
@@ -284,7 +295,9 @@ func (c *codegen) needFuel(at ast.Node) {
 }
 
 // flush returns the lines hoisted while translating the expressions of one
-// statement; exprs are those expressions (for the evaluation-order check).
+// statement; exprs are those expressions (for the evaluation-order check: a statement must
+// not read a variable outside of the call that modifies it — except, for the builtin copy,
+// reads of a slice HEADER, see below).
 func (c *codegen) flush(exprs ...ast.Node) []string {
 	pre := c.cur.pre
 	c.cur.pre = nil
@@ -297,6 +310,42 @@ func (c *codegen) flush(exprs ...ast.Node) []string {
 		}
 	}
 	for _, h := range hs {
+		// copy(dst, src) writes ELEMENTS only: the slice header of dst (and of everything else) is the
+		// same before and after the call, so reading a header — the operand P of P[lo:hi], len(P),
+		// cap(P), P a variable or field path — gives the same value in either evaluation order; the
+		// elements seen through the resulting slice are in Go those of the shared array, i.e. the
+		// ones after the call, which is what the hoisted rebinding yields.
+		headerOnly := map[ast.Node]bool{}
+		if hc, isCall := h.call.(*ast.CallExpr); isCall && isBuiltin(hc, "copy") && c.lookup("copy") == nil {
+			for _, e := range exprs {
+				if e == nil {
+					continue
+				}
+				ast.Inspect(e, func(n ast.Node) bool {
+					switch y := n.(type) {
+					case *ast.AssignStmt:
+						// a plain assignment TO a path does not read it (and copy does not move it)
+						if y.Tok == token.ASSIGN || y.Tok == token.DEFINE {
+							for _, l := range y.Lhs {
+								if pathOf(l) != nil {
+									headerOnly[l] = true
+								}
+							}
+						}
+					case *ast.SliceExpr:
+						if pathOf(y.X) != nil {
+							headerOnly[y.X] = true
+						}
+					case *ast.CallExpr:
+						if (isBuiltin(y, "len") || isBuiltin(y, "cap")) && len(y.Args) == 1 && pathOf(y.Args[0]) != nil &&
+							c.lookup(y.Fun.(*ast.Ident).Name) == nil {
+							headerOnly[y.Args[0]] = true
+						}
+					}
+					return true
+				})
+			}
+		}
 		for _, e := range exprs {
 			if e == nil {
 				continue
@@ -306,6 +355,9 @@ func (c *codegen) flush(exprs ...ast.Node) []string {
 					return false
 				}
 				if n.Pos() >= h.call.Pos() && n.End() <= h.call.End() {
+					return false
+				}
+				if headerOnly[n] {
 					return false
 				}
 				if id, ok := n.(*ast.Ident); ok && id.Name == h.root {
@@ -1832,6 +1884,9 @@ func (c *codegen) assignedOuter2(at ast.Node, lists ...[]ast.Stmt) []string {
 				if f.Name == "copy" && len(call.Args) == 2 {
 					mark(call.Args[0])
 				}
+				if f.Name == "clear" && len(call.Args) == 1 && !local("clear") && c.lookup("clear") == nil && c.fns[fnKey{"", "clear"}] == nil {
+					mark(call.Args[0])
+				}
 				if c.phase4 {
 					c.markCallEffects4(f, call, local, mark)
 				}
@@ -1939,5 +1994,19 @@ func (c *codegen) assignedOuter2(at ast.Node, lists ...[]ast.Stmt) []string {
 		walkList(l)
 		scopes = scopes[:len(scopes)-1]
 	}
+	// NORMALISATION (topics with declOrder): the variables in the order of their DECLARATION (receiver, parameters, results,
+	// locals), not of their first assignment in the statements — the state tuple of a loop and the
+	// join tuple of an `if` then do not depend on the order in which independent assignments are
+	// written (nor on which arm of an `if` comes first)
+	if !c.declOrder {
+		return order // topics whose proofs were written against the order of first assignment (code_part4.go)
+	}
+	sort.SliceStable(order, func(i, j int) bool {
+		a, b := c.lookup(order[i]), c.lookup(order[j])
+		if a == nil || b == nil {
+			return false
+		}
+		return a.seq < b.seq
+	})
 	return order
 }
